@@ -146,9 +146,9 @@ func (d *Decoder) unmarshal(val reflect.Value, tagType byte) error {
 		default:
 			return errors.New("cannot parse TagFloat as " + vk.String())
 		case reflect.Float32:
-			val.Set(reflect.ValueOf(value))
+			val.Set(reflect.ValueOf(value).Convert(val.Type()))
 		case reflect.Float64:
-			val.Set(reflect.ValueOf(float64(value)))
+			val.SetFloat(float64(value))
 		case reflect.Interface:
 			val.Set(reflect.ValueOf(value))
 		}
@@ -180,7 +180,7 @@ func (d *Decoder) unmarshal(val reflect.Value, tagType byte) error {
 		default:
 			return errors.New("cannot parse TagDouble as " + vk.String())
 		case reflect.Float64:
-			val.Set(reflect.ValueOf(value))
+			val.SetFloat(value)
 		case reflect.Interface:
 			val.Set(reflect.ValueOf(value))
 		}
